@@ -177,6 +177,32 @@ impl Client {
     }
 }
 
+/// asks for every room and releases each as soon as it is granted, until every room has been
+/// granted once: the statement says this ends as long as the others release what they are granted
+async fn acquire_all(c: &mut Client, lock: &RoomLockService, rooms: &[Uid], limit: usize, o: &mut ExitOutcome) {
+    c.request(lock, rooms).await;
+    let mut seen: BTreeSet<Uid> = BTreeSet::new();
+    let deadline = tokio::time::Instant::now() + Duration::from_secs(8);
+    while seen.len() < rooms.len() && tokio::time::Instant::now() < deadline {
+        let got = c.wait_grants(1, 100).await;
+        if c.held.len() > limit {
+            o.violations.push(("bound:held-rooms-exceed-limit".to_string(), format!("{} rooms granted at once to one connection with limit {}", c.held.len(), limit)));
+        }
+        for g in got {
+            if !seen.insert(g) {
+                o.violations.push(("grant-without-pending-request".to_string(), "a room is granted twice for one request".to_string()));
+            }
+        }
+        c.release_all(lock).await;
+    }
+    if seen.len() < rooms.len() {
+        o.violations.push((
+            "starvation:pending-request-never-granted".to_string(),
+            format!("a connection asking for {} rooms while the others release what they are granted obtains {} of them in 8 s", rooms.len(), seen.len()),
+        ));
+    }
+}
+
 async fn wait_until<F: Fn() -> bool>(f: F, ms: u64) -> bool {
     let deadline = tokio::time::Instant::now() + Duration::from_millis(ms);
     loop {
@@ -395,30 +421,23 @@ async fn run_exit_async(case: &ExitCase, w: &SyncWorld) -> ExitOutcome {
     match case.scenario {
         Scenario::Normal => {
             o.label("exit:normal-end-of-synchronisation");
+            if case.competitor {
+                // contend with the connection from the start
+                o.label("exit:competitor-contends-during-normal-synchronisation");
+                acquire_all(&mut h1, &lock, &rooms, limit, &mut o).await;
+            }
             // every room is synchronised in turn
             let g = gate.clone();
             let n = rooms.len();
-            let all_seen = wait_until(move || g.lock().unwrap().queries.iter().filter(|q| q.0 == "RoomDefinition").count() >= n, 5000).await;
+            let all_seen = wait_until(move || g.lock().unwrap().queries.iter().filter(|q| q.0 == "RoomDefinition").count() >= n, 8000).await;
             if !all_seen {
                 o.discard = Some("rooms-not-synchronised-in-time".to_string());
+            } else {
+                // every task has started; once another connection has been granted every room, every
+                // task has also finished and released its room
+                acquire_all(&mut h2, &lock, &rooms, limit, &mut o).await;
             }
-            if case.competitor {
-                h1.request(&lock, &rooms).await;
-                let got = h1.wait_grants(limit.min(rooms.len()), 3000).await;
-                if got.len() < limit.min(rooms.len()) {
-                    o.violations.push((
-                        "starvation:pending-request-never-granted".to_string(),
-                        format!("the connection synchronised its rooms and released them, another connection asking for {} rooms is granted {}", rooms.len(), got.len()),
-                    ));
-                }
-                if h1.held.len() > limit {
-                    o.violations.push(("bound:held-rooms-exceed-limit".to_string(), format!("{} rooms granted at once with limit {}", h1.held.len(), limit)));
-                }
-                h1.release_all(&lock).await;
-                let _ = h1.wait_grants(rooms.len(), 300).await;
-                h1.release_all(&lock).await;
-            }
-            tokio::time::sleep(Duration::from_millis(50)).await;
+            tokio::time::sleep(Duration::from_millis(20)).await;
             ev_tx = None;
         }
         Scenario::CutDuringSync => {
@@ -464,16 +483,11 @@ async fn run_exit_async(case: &ExitCase, w: &SyncWorld) -> ExitOutcome {
                 }
                 // the connection ends: events end, the loop exits, cleanup unlocks what was acquired
                 ev_tx = None;
+                let mut granted_before_task_end = false;
                 if case.competitor && h1.held.is_empty() {
-                    let got = h1.wait_grants(1, 2000).await;
-                    if got.is_empty() {
-                        // the room was unlocked by cleanup and handed to somebody who will never use it
-                        lost_cause = Some("granted-to-ending-connection");
-                        o.violations.push((
-                            "lost-lock:granted-to-ending-connection".to_string(),
-                            "the connection ended during the synchronisation of a room; the connection waiting for that room is never granted it".to_string(),
-                        ));
-                    } else {
+                    let got = h1.wait_grants(1, 400).await;
+                    if !got.is_empty() {
+                        granted_before_task_end = true;
                         o.label("exit:waiting-connection-granted-after-cleanup");
                     }
                 } else {
@@ -481,26 +495,43 @@ async fn run_exit_async(case: &ExitCase, w: &SyncWorld) -> ExitOutcome {
                 }
                 // now the answers end too: the leftover task gets its error and unlocks its room
                 gate.lock().unwrap().close = true;
+                if case.competitor && !granted_before_task_end && h1.held.is_empty() {
+                    // a release at the end of the task would do as well
+                    let got = h1.wait_grants(1, 3000).await;
+                    if got.is_empty() {
+                        // the room was unlocked and handed to somebody who will never use it
+                        lost_cause = Some("granted-to-ending-connection");
+                        o.violations.push((
+                            "lost-lock:granted-to-ending-connection".to_string(),
+                            "the connection ended during the synchronisation of a room and its task has ended too; the connection waiting for that room is never granted it".to_string(),
+                        ));
+                    } else {
+                        o.label("exit:waiting-connection-granted-after-task-end");
+                    }
+                }
                 tokio::time::sleep(Duration::from_millis(80)).await;
-                double_unlock = true;
                 let target = if case.third_asks_other_room { other.unwrap_or(x) } else { x };
                 let h1_holds_x = h1.held.contains(&x);
                 h2.request(&lock, &[target]).await;
                 let got = h2.wait_grants(1, 80).await;
                 if h1_holds_x {
-                    o.label("exit:leftover-task-unlocks-room-held-by-other");
+                    let twice = granted_before_task_end;
+                    if twice {
+                        o.label("exit:leftover-task-unlocks-room-held-by-other");
+                    }
                     if !got.is_empty() && target == x {
                         o.violations.push((
-                            "unlock-has-no-owner:double-unlock:exclusive".to_string(),
+                            if twice { "unlock-has-no-owner:double-unlock:exclusive" } else { "exclusive:room-granted-while-held" }.to_string(),
                             "cleanup unlocked the room, a waiting connection was granted it, the leftover synchronisation task unlocked it again, a third connection is granted it while the second still holds it".to_string(),
                         ));
                     } else if h1.held.len() + h2.held.len() > limit {
                         o.violations.push((
-                            "unlock-has-no-owner:double-unlock:bound".to_string(),
+                            if twice { "unlock-has-no-owner:double-unlock:bound" } else { "bound:held-rooms-exceed-limit" }.to_string(),
                             format!("after the second unlock of the same room {} rooms are held at once with limit {}", h1.held.len() + h2.held.len(), limit),
                         ));
                     }
                 }
+                double_unlock = granted_before_task_end;
             }
         }
         Scenario::MalformedRoomList => {
